@@ -5,6 +5,7 @@
 import FianoModel.Uefi.EditArith
 
 namespace Fiano.Uefi
+open EditArith
 open Fiano
 
 /-! ### reading fields back from a written header -/
@@ -20,8 +21,10 @@ theorem fld_append_right' (a b : Bytes) (m k n : Nat) (h : a.length = m) :
     Valid.fld (a ++ b) (m + k) n = Valid.fld b k n := by
   subst h; exact fld_append_right a b k n
 
+namespace EditArith
 theorem byte_toNat (n : Nat) (h : n < 256) : (byte n).toNat = n := by
   unfold byte; simp [UInt8.toNat_ofNat']; omega
+end EditArith
 
 theorem leN3 (n : Nat) : leN 3 n = [byte (n % 256), byte (n / 256 % 256), byte (n / 256 / 256 % 256)] := by
   simp [leN, byte]
@@ -33,6 +36,7 @@ theorem fromLE3 (a b c : UInt8) : fromLE [a, b, c] = a.toNat + 256 * (b.toNat + 
 def hdr24 (g : Bytes) (ckh ckf ty at_ s0 s1 s2 st : UInt8) : Bytes :=
   g ++ [ckh, ckf, ty, at_, s0, s1, s2, st]
 
+namespace EditArith
 theorem encodeFileHeader_eq (i : FileInfo) (ckh ckf : UInt8) (large : Bool) :
     encodeFileHeader i ckh ckf large =
       hdr24 i.guid ckh ckf (byte i.type) (byte i.attrs) (byte (i.size3 % 256)) (byte (i.size3 / 256 % 256))
@@ -40,6 +44,7 @@ theorem encodeFileHeader_eq (i : FileInfo) (ckh ckf : UInt8) (large : Bool) :
   unfold encodeFileHeader hdr24
   rw [leN3]
   simp
+end EditArith
 
 theorem hdr24_length (g : Bytes) (hg : g.length = 16) (a b c d e f g' h : UInt8) :
     (hdr24 g a b c d e f g' h).length = 24 := by simp [hdr24, hg]
@@ -90,6 +95,7 @@ theorem hdr_sum (G ckh0 ckf0 ty at_ S st E ckf : UInt8) :
 end Fiano.Uefi
 
 namespace Fiano.Uefi
+open EditArith
 open Fiano
 
 theorem sum8_hdr24 (g : Bytes) (ckh ckf ty at_ s0 s1 s2 st : UInt8) (e : Bytes) :
@@ -122,6 +128,7 @@ theorem casm_buf (i : FileInfo) (data : Bytes) :
 end Fiano.Uefi
 
 namespace Fiano.Uefi
+open EditArith
 open Fiano
 
 /-- the extended-size bytes of a written header -/
@@ -172,6 +179,7 @@ theorem casm_length (i : FileInfo) (data : Bytes) (hg : i.guid.length = 16) :
 end Fiano.Uefi
 
 namespace Fiano.Uefi
+open EditArith
 open Fiano
 
 /-- a header that is consistent with the size of the file it describes -/
@@ -327,6 +335,7 @@ theorem casm_fileOk (i : FileInfo) (data : Bytes) (fuel o : Nat) (hs : SizeField
 end Fiano.Uefi
 
 namespace Fiano.Uefi
+open EditArith
 open Fiano
 
 /-- the header fields `CreatePadFile` sets up -/
@@ -417,6 +426,7 @@ theorem mkPadFile_valid (pol : UInt8) (size : Nat) (h24 : 24 ≤ size) (h64 : si
 end Fiano.Uefi
 
 namespace Fiano.Uefi
+open EditArith
 open Fiano
 
 set_option maxRecDepth 16384 in
